@@ -6,7 +6,9 @@ the `^` / `$` anchors.
 Supported syntax = exactly what the translated sites use: literals, escaped
 punctuation, classes with ranges / negation / escapes, `.` (excludes \\n), greedy
 `* + ?`, alternation, groups (capturing, `(?P<name>..)`, `(?:..)`; captures are
-irrelevant for is_match), `^` at the very start and `$` at the very end.
+irrelevant for is_match), `^` at the very start and `$` at the very end, a leading `(?s)`
+(then `.` is any character), `\\d` outside classes (= `Chr false nd_ranges`, the
+generated file must import Gen.UnicodeNd).
 Anything else raises SyntaxError (= the tie to the source is broken; ./check
 reports a proof-obligation problem).
 
@@ -77,6 +79,7 @@ ESCAPABLE = set("$(){}[]?.*+-^\\/|`'\"= ")
 class P:
     def __init__(self, s):
         self.s, self.i = s, 0
+        self.dotall = False
 
     def peek(self):
         return self.s[self.i] if self.i < len(self.s) else None
@@ -91,6 +94,10 @@ class P:
 
     def parse(self):
         ab = ae = False
+        # a leading (?s) flag group: `.` also matches \n
+        if self.s.startswith("(?s)"):
+            self.i = 4
+            self.dotall = True
         if self.peek() == "^":
             self.eat(); ab = True
         end = len(self.s)
@@ -163,8 +170,11 @@ class P:
         if c == "[":
             return self.cls()
         if c == ".":
-            return ("chr", True, [(10, 10)])
+            return ("chr", True, [] if self.dotall else [(10, 10)])
         if c == "\\":
+            if self.peek() == "d":        # Unicode Nd: the table of Gen/UnicodeNd.v (regex-syntax perl_decimal)
+                self.eat()
+                return ("nd",)
             return ("chr", False, [self.esc()])
         if c in "^$":
             self.fail("anchor in the middle of a pattern")
@@ -217,6 +227,8 @@ def coq(r):
         return "Eps"
     if k == "chr":
         return "(Chr %s [%s])" % ("true" if r[1] else "false", "; ".join("(%d, %d)" % p for p in r[2]))
+    if k == "nd":
+        return "(Chr false nd_ranges)"
     if k == "cat":
         return "(Cat %s %s)" % (coq(r[1]), coq(r[2]))
     if k == "alt":
